@@ -6,7 +6,7 @@ import numpy as np
 from .. import cases, monitors
 
 TITLE = "Statistical sampler emits valid continua with the reference's statistics"
-DECIDING = ["M-VALID", "M-LAW-COUNTS", "M-LAW-GAPS", "M-LAW-DURATIONS", "M-LAW-CATEGORIES", "M-MEASURE", "M-REINIT", "M-PRECISION-SETTING"]
+DECIDING = ["M-VALID", "M-LAW-COUNTS", "M-LAW-GAPS", "M-LAW-DURATIONS", "M-LAW-CATEGORIES", "M-MEASURE", "M-REINIT", "M-PRECISION-SETTING", "M-CONCURRENT-DRAWS", "M-PRIOR-INIT"]
 LEVEL = "exploration"
 RULE = ("(1) per-draw validity on hostile parameter sets (custom: large deviations, zero / negative means, mean number of "
         "units 0, durations near the segment precision, weights None or skewed; reference-initialised: random labelled "
@@ -18,7 +18,10 @@ RULE = ("(1) per-draw validity on hostile parameter sets (custom: large deviatio
         "and weights, unit durations and labels are explained by recorded draws); (2) law: black-box moments over "
         ">= 1500 draws per benign parameter set (generation order == sorted order): unit counts against the exact pmf "
         "of |trunc N|, gaps and durations by mean / variance z-tests, categories by chi-square, all at 6 sigma / "
-        "p < 1e-9; (3) init_sampling(reference): held parameters against an independent re-measurement of the reference. "
+        "p < 1e-9; (3) init_sampling(reference): held parameters against an independent re-measurement of the reference; (4) histories: the "
+        "same sampler object initialised another way (reference / custom with weights, with or without draws) before the judged initialisation; "
+        "(5) one sampler object drawn from by 2-8 user threads at once under a law without dispersion for gaps and durations (every annotator "
+        "of every sample must be the same arithmetic progression). "
         "non-trivial = every parameter set; distinct by SHA-1 of the parameter set / reference")
 ASSUMPTIONS = [
     "thresholds at 6 standard errors / p < 1e-9: the false-alarm rate per run is negligible while a 5 % parameter error is "
@@ -53,6 +56,17 @@ def rng_spy():
 def make_sampler(case):
     import pygamma_agreement as pa
     s = pa.StatisticalContinuumSampler()
+    prior = case.get("prior_init")
+    if prior:
+        # the SAME sampler object went through another initialisation before the one that is judged
+        if prior["init"] == "custom":
+            q = prior["params"]
+            s.init_sampling_custom(list(q["annotators"]), q["avg_n"], q["std_n"], q["avg_gap"], q["std_gap"], q["avg_dur"], q["std_dur"],
+                                   list(q["categories"]), None if q["weights"] is None else list(q["weights"]))
+        else:
+            s.init_sampling(cases.build_continuum(prior["continuum"]))
+        for _ in range(int(prior.get("draws", 0))):
+            s.sample_from_continuum
     if case["init"] == "custom":
         p = case["params"]
         if case.get("caller_arrays"):
@@ -335,7 +349,50 @@ def check_measure(ctx, h, cspec):
 
 
 # ------------------------------------------------------------------------------------------- cases
+def check_concurrent_draws(ctx, case):
+    """ONE sampler object drawn from by several user threads at once, with a law without dispersion for gaps and durations
+    (deviation 0): whatever the interleaving, every annotator of every sample is the same arithmetic progression."""
+    from . import _align_common as ac
+    import pygamma_agreement as pa
+    p = case["params"]
+    s = pa.StatisticalContinuumSampler()
+    s.init_sampling_custom(list(p["annotators"]), p["avg_n"], p["std_n"], p["avg_gap"], 0.0, p["avg_dur"], 0.0,
+                           list(p["categories"]), None if p["weights"] is None else list(p["weights"]))
+    gt = sorted(p["annotators"])
+    np.random.seed(case["np_seed"])
+
+    def work():
+        return [units_of(s.sample_from_continuum) for _ in range(case["draws"])]
+    for k, (res, exc) in enumerate(ac.concurrent_calls([work] * case["threads"])):
+        ctx.count("M-CONCURRENT-DRAWS")
+        if exc is not None:
+            ctx.fail_exc(f"concurrent-draws:raises:{type(exc).__name__}", exc, monitor="M-CONCURRENT-DRAWS")
+            continue
+        for us in res:
+            ctx.count("M-VALID")
+            if sorted(us.keys()) != gt or not any(us.values()):
+                ctx.fail("concurrent-draws:invalid-sample", {"annotators": sorted(us.keys()), "expected": gt}, monitor="M-CONCURRENT-DRAWS")
+                break
+            bad = None
+            for a, units in us.items():
+                last = 0.0
+                for (st, en, lab) in units:
+                    st_exp = last + p["avg_gap"]
+                    en_exp = st_exp + abs(p["avg_dur"])
+                    if abs(st - st_exp) > 1e-9 * max(1.0, abs(st_exp)) or abs(en - en_exp) > 1e-9 * max(1.0, abs(en_exp)) or lab not in p["categories"]:
+                        bad = {"annotator": a, "unit": [st, en, lab], "expected": [st_exp, en_exp], "thread": k}
+                        break
+                    last = en
+                if bad:
+                    break
+            if bad:
+                ctx.fail("concurrent-draws:units-do-not-follow-the-supplied-law", bad, monitor="M-CONCURRENT-DRAWS")
+                break
+
+
 def check_case(ctx, case):
+    if case.get("threads"):
+        return check_concurrent_draws(ctx, case)
     if case.get("segment_precision") and not case.get("_inner"):
         # the segment precision is a run-time setting of pyannote: the sampler must honour the value in force when it draws
         import pyannote.core.segment as seg
@@ -347,6 +404,8 @@ def check_case(ctx, case):
         finally:
             seg.SEGMENT_PRECISION = old
     spy = rng_spy()
+    if case.get("prior_init"):
+        ctx.count("M-PRIOR-INIT")
     try:
         sampler, gt, cats, continuum = make_sampler(case)
     except Exception as e:
@@ -487,6 +546,29 @@ def run(ctx):
     for _ in range(ctx.scale(1, 4)):
         case = {"init": "custom", "params": benign_custom(rng), "benign": True, "draws": ctx.scale(800, 3000), "caller_arrays": True}
         plan_.append(case)
+    # the same sampler object initialised another way before the judged initialisation (custom after reference / custom with
+    # weights; reference after custom)
+    for _ in range(ctx.scale(8, 150)):
+        prior = ({"init": "custom", "params": dict(hostile_custom(rng), avg_n=3, std_n=1, avg_dur=2.0, std_dur=0.5), "draws": rng.choice([0, 2])}
+                 if rng.random() < 0.5 else
+                 {"init": "reference", "continuum": cases.gen_continuum(rng, n_annot=3, max_units=5, min_total=3, allow_empty=False,
+                                                                      labels=rng.choice([cases.LABELS_SMALL, ["only"], cases.LABELS_WORDS[:4]])),
+                  "draws": rng.choice([0, 2])})
+        if rng.random() < 0.6:
+            params = benign_custom(rng)
+            if rng.random() < 0.6:
+                params["weights"] = None       # no weights this time: a uniform law over the supplied categories
+            if rng.random() < 0.5 and prior["init"] == "reference":
+                params["categories"] = cases.spec_labels(prior["continuum"]) or params["categories"]    # the same number of categories as before
+                params["weights"] = None
+            plan_.append({"init": "custom", "params": params, "benign": False, "draws": 40, "prior_init": prior})
+        else:
+            cspec = cases.gen_continuum(rng, n_annot=3, max_units=6, min_total=3, allow_empty=False, labels=cases.LABELS_WORDS[:5])
+            plan_.append({"init": "reference", "continuum": cspec, "ground_truth": None, "benign": False, "draws": 40, "prior_init": prior})
+    # one sampler object, several user threads drawing at once, a law without dispersion for gaps and durations
+    for _ in range(ctx.scale(3, 40)):
+        params = benign_custom(rng)
+        plan_.append({"init": "custom", "params": params, "benign": False, "threads": rng.choice([2, 4, 8]), "draws": 12})
     plan_.sort(key=lambda c: bool(c.get("benign")))     # the cheap per-draw validity cases first, the long law runs last
     for case in plan_:
         if ctx.out_of_time() and not case.get("benign"):
